@@ -1,7 +1,327 @@
-// Package pool is the `pool` world (stub; filled in below).
+// Package pool is the `pool` world: seeded call histories over a mutable
+// pool of points, scalars and key objects, with receiver/argument aliasing,
+// failing calls, uninitialised operands, caller-side mutation at arbitrary
+// later steps, and re-randomised projective representatives.
+//
+// Decides C18 (full) and the history clause of C03; its recorded histories
+// are also what C19 compares between the assembly and purego builds.
 package pool
 
-import "verif/sim/kernel"
+import (
+	"bytes"
+	"fmt"
+	"math/big"
+
+	secp256k1 "gitlab.com/yawning/secp256k1-voi"
+
+	"verif/sim/kernel"
+	"verif/sim/ref"
+)
+
+const (
+	nPoints  = 6
+	nScalars = 6
+	maxKeys  = 4
+	maxSteps = 80
+)
+
+type rawPoint struct {
+	x, y, z [32]byte
+	valid   bool
+}
+
+func rawOf(p *secp256k1.Point) rawPoint {
+	x, y, z, v := secp256k1.VerifRawCoords(p)
+	return rawPoint{x, y, z, v}
+}
+
+// World is the state of one run.
+type World struct {
+	r    *kernel.Run
+	t    *kernel.Tape
+	prop string
+	step int
+
+	points [nPoints]*secp256k1.Point
+	mp     [nPoints]ref.Pt // exact affine model of every initialised slot
+	init   [nPoints]bool
+
+	scalars [nScalars]*secp256k1.Scalar
+
+	keys []*keyEntry
+	bufs []*bufEntry
+
+	identYOdd    int // -1 unknown; convention observed for IsYOdd(identity)
+	mutatedSince bool
+}
+
+func hx(b []byte) string { return kernel.Hex(b) }
+
+type callOut struct {
+	panicked bool
+	msg      string
+}
+
+func protect(f func()) (out callOut) {
+	defer func() {
+		if e := recover(); e != nil {
+			out.panicked = true
+			out.msg = fmt.Sprint(e)
+		}
+	}()
+	f()
+	return
+}
+
+// ---------------------------------------------------------------- drawing
+
+var fieldP = ref.P
+
+func (w *World) drawScalarInt(label string) *big.Int {
+	nm1 := new(big.Int).Sub(ref.N, big.NewInt(1))
+	switch w.t.Choose("ops", label+".kind", 10) {
+	case 0:
+		return big.NewInt(0)
+	case 1:
+		return big.NewInt(1)
+	case 2:
+		return nm1
+	case 3:
+		return big.NewInt(2)
+	case 4:
+		return new(big.Int).Set(ref.HalfN)
+	case 5:
+		return new(big.Int).Add(ref.HalfN, big.NewInt(1))
+	case 6: // 0-heavy / F-heavy nibble patterns
+		b := bytes.Repeat([]byte{[]byte{0x00, 0xff, 0x0f, 0xf0}[w.t.Choose("ops", label+".pat", 4)]}, 32)
+		b[w.t.Choose("ops", label+".pos", 32)] = byte(w.t.Choose("ops", label+".byte", 256))
+		return ref.ModN(ref.OS2IP(b))
+	case 7:
+		return big.NewInt(int64(w.t.Choose("ops", label+".small", 1<<16)))
+	}
+	return ref.ModN(ref.OS2IP(w.t.Bytes("ops", label+".rnd", 32)))
+}
+
+func scalarFromInt(v *big.Int) *secp256k1.Scalar {
+	var b [32]byte
+	v.FillBytes(b[:])
+	s, err := secp256k1.NewScalarFromCanonicalBytes(&b)
+	if err != nil {
+		panic("harness: scalar out of range")
+	}
+	return s
+}
+
+func (w *World) pickPoint(label string) int  { return w.t.Choose("ops", label, nPoints) }
+func (w *World) pickScalar(label string) int { return w.t.Choose("ops", label, nScalars) }
+
+// pickRelated prefers a slot whose abstract point is +-mp[a] (the
+// exceptional relations Q = P, Q = -P arising by history).
+func (w *World) pickRelated(label string, a int) int {
+	if w.init[a] && w.t.Chance("ops", label+".rel", 1, 3) {
+		var cands []int
+		for i := 0; i < nPoints; i++ {
+			if w.init[i] && (w.mp[i].Eq(w.mp[a]) || w.mp[i].Eq(w.mp[a].Neg())) {
+				cands = append(cands, i)
+			}
+		}
+		if len(cands) > 0 {
+			return cands[w.t.Choose("ops", label+".relpick", len(cands))]
+		}
+	}
+	return w.pickPoint(label)
+}
+
+// ---------------------------------------------------------------- invariants
+
+// checkValidity: C18 validity invariant over the whole pool.
+func (w *World) checkValidity(after string) {
+	for i, p := range w.points {
+		raw := rawOf(p)
+		if raw.valid != w.init[i] {
+			if raw.valid {
+				w.r.Violate("C18", "uninitialised-became-valid", after, w.step, "after %s: point slot %d is marked valid although no successful operation initialised it", after, i)
+			} else {
+				w.r.Violate("C18", "initialised-became-invalid", after, w.step, "after %s: point slot %d lost its validity flag", after, i)
+			}
+			w.init[i] = raw.valid
+			continue
+		}
+		if !raw.valid {
+			continue
+		}
+		var enc []byte
+		po := protect(func() { enc = p.UncompressedBytes() })
+		if po.panicked {
+			w.r.Violate("C18", "encode-panics", after, w.step, "after %s: UncompressedBytes of slot %d panicked: %s", after, i, po.msg)
+			continue
+		}
+		q, err := ref.Decode(enc)
+		if err != nil {
+			w.r.Violate("C18", "invalid-point-escaped", after, w.step, "after %s: point slot %d encodes to %x, which is neither the identity nor a point with y^2 = x^3 + 7 and x,y < p", after, i, enc)
+			continue
+		}
+		_ = q
+	}
+	for i, s := range w.scalars {
+		b := s.Bytes()
+		if !ref.ScalarCanonical(b) {
+			w.r.Violate("C18", "non-canonical-scalar", after, w.step, "after %s: scalar slot %d encodes to %x >= n", after, i, b)
+		}
+	}
+}
+
+// ---------------------------------------------------------------- fixture
+
+func (w *World) buildFixture() {
+	for i := range w.points {
+		w.points[i] = new(secp256k1.Point)
+	}
+	for i := range w.scalars {
+		w.scalars[i] = secp256k1.NewScalar()
+	}
+	// slots 0..2 initialised, 3..5 deliberately zero-value
+	w.points[0].Generator()
+	w.mp[0], w.init[0] = ref.G(), true
+	w.points[1].Identity()
+	w.mp[1], w.init[1] = ref.Infinity(), true
+	k := w.drawScalarInt("fx.k")
+	w.points[2].ScalarBaseMult(scalarFromInt(k))
+	w.adopt(2, "fixture")
+	for i := 0; i < nScalars; i++ {
+		w.scalars[i].Set(scalarFromInt(w.drawScalarInt(fmt.Sprintf("fx.s%d", i))))
+	}
+	w.identYOdd = -1
+	w.r.Hist("fixture p2=%x scalars=%s", w.points[2].CompressedBytes(), w.scalarDump())
+}
+
+func (w *World) scalarDump() string {
+	s := ""
+	for i, x := range w.scalars {
+		if i > 0 {
+			s += ","
+		}
+		s += hx(x.Bytes())
+	}
+	return s
+}
+
+// adopt makes the model take over the implementation's (validity-checked)
+// result for slot i; used after operations that C03 does not model
+// (scalar multiplication, decoders, hash-to-curve).
+func (w *World) adopt(i int, after string) {
+	raw := rawOf(w.points[i])
+	if !raw.valid {
+		w.init[i] = false
+		return
+	}
+	var enc []byte
+	po := protect(func() { enc = w.points[i].UncompressedBytes() })
+	if po.panicked {
+		w.r.Violate("C18", "encode-panics", after, w.step, "after %s: UncompressedBytes of slot %d panicked: %s", after, i, po.msg)
+		return
+	}
+	q, err := ref.Decode(enc)
+	if err != nil {
+		w.init[i] = true
+		w.mp[i] = ref.Infinity()
+		w.r.Violate("C18", "invalid-point-escaped", after, w.step, "after %s: point slot %d encodes to %x, which is neither the identity nor on the curve", after, i, enc)
+		return
+	}
+	w.init[i] = true
+	w.mp[i] = q
+}
+
+// ---------------------------------------------------------------- run
 
 // Run executes one seeded history.
-func Run(run *kernel.Run, prop string) {}
+func Run(run *kernel.Run, prop string) {
+	w := &World{r: run, t: run.T, prop: prop}
+	w.buildFixture()
+	weights := w.opWeights()
+	total := 0
+	for _, x := range weights {
+		total += x
+	}
+	for w.step < maxSteps && (w.t.Choose("ops", "more", 24) != 0 || w.step == 0) {
+		w.step++
+		c := w.t.Choose("ops", "kind", total)
+		k := 0
+		for c >= weights[k] {
+			c -= weights[k]
+			k++
+		}
+		run.Res.Ops++
+		opTable[k].run(w)
+		w.checkValidity(opTable[k].name)
+		w.checkKeysCheap(opTable[k].name)
+	}
+	w.checkKeysFull("end-of-history")
+	run.Res.Steps = w.step
+	run.Res.Cfg["weights"] = weights
+}
+
+type opKind struct {
+	name   string
+	weight int
+	run    func(w *World)
+}
+
+var opTable []opKind
+
+func init() {
+	opTable = []opKind{
+		{"point-grouplaw", 14, (*World).opGroupLaw},
+		{"point-observe", 8, (*World).opObserve},
+		{"point-mul", 8, (*World).opMul},
+		{"point-multi", 5, (*World).opMulti},
+		{"point-decode", 8, (*World).opDecode},
+		{"point-construct", 5, (*World).opConstruct},
+		{"point-rescale", 5, (*World).opRescale},
+		{"point-reset", 2, (*World).opResetSlot},
+		{"scalar-arith", 8, (*World).opScalarArith},
+		{"scalar-decode", 4, (*World).opScalarDecode},
+		{"key-construct", 8, (*World).opKeyConstruct},
+		{"key-access", 8, (*World).opKeyAccess},
+		{"caller-mutation", 8, (*World).opMutate},
+		{"h2c", 2, (*World).opH2C},
+	}
+}
+
+func (w *World) opWeights() []int {
+	out := make([]int, len(opTable))
+	sum := 0
+	for i, k := range opTable {
+		b := k.weight
+		switch w.prop {
+		case "C03":
+			switch k.name {
+			case "point-grouplaw":
+				b *= 3
+			case "point-observe", "point-rescale":
+				b *= 2
+			case "key-construct", "key-access", "caller-mutation":
+				b /= 4
+			}
+		case "C19":
+			switch k.name {
+			case "point-mul", "point-multi", "key-construct":
+				b *= 3
+			}
+		}
+		switch w.t.Choose("cfg", fmt.Sprintf("w.%s", k.name), 4) {
+		case 1:
+			b *= 3
+		case 3:
+			b = 0
+		}
+		out[i] = b
+		sum += b
+	}
+	if sum == 0 {
+		for i, k := range opTable {
+			out[i] = k.weight
+		}
+	}
+	return out
+}
